@@ -295,6 +295,13 @@ func (w World) Frame(app AppPayload) *rapid.Generator[FrameCase] {
 			return FrameCase{ref.Eth(dst, src, uint16(n), pl), "8023"}
 		case "vendor":
 			et := rapid.SampledFrom([]uint16{0x8808, 0x8899, 0x88cc, 0x890d, 0x893a, 0x6970, 0x880a}).Draw(t, "vendorType")
+			if rapid.IntRange(0, 2).Draw(t, "groupDst") == 0 { // the reserved group addresses these protocols are really sent to, in frames below the 60 byte minimum too
+				dst = map[uint16]ref.MAC{0x8808: {0x01, 0x80, 0xc2, 0, 0, 0x01}, 0x88cc: {0x01, 0x80, 0xc2, 0, 0, 0x0e}, 0x893a: {0x01, 0x80, 0xc2, 0, 0, 0x13}, 0x8899: {0xff, 0xff, 0xff, 0xff, 0xff, 0xff}}[et]
+				if dst == (ref.MAC{}) {
+					dst = ref.MAC{0x01, 0x80, 0xc2, 0, 0, 0x00}
+				}
+				return FrameCase{ref.Eth(dst, src, et, Bytes(t, rapid.SampledFrom([]int{0, 2, 4, 10, 45, 46, 47}).Draw(t, "shortpl"), "vendorshort")), "vendor-group"}
+			}
 			return FrameCase{ref.Eth(dst, src, et, Bytes(t, PayloadLen(t, 1500), "vendorpl")), "vendor"}
 		}
 		et := rapid.OneOf(rapid.SampledFrom(EtherTypes), rapid.Uint16()).Draw(t, "etype")
